@@ -1213,13 +1213,26 @@ class DomainMapping(CanBehaveLikeAVariable[T], ABC):
         :param current_value: The current value of this operation that is derived from the child result.
         :return: The operation result.
         """
-        if isinstance(self._parent_, LogicalOperator) or self is self._conditions_root_:
+        if (
+            isinstance(self._parent_, LogicalOperator)
+            or self is self._conditions_root_
+            or self._is_the_condition_of_its_query_
+        ):
             self._is_false_ = not bool(current_value)
         return OperationResult(
             {**child_result.bindings, self._id_: current_value},
             self._is_false_,
             self,
         )
+
+    @property
+    def _is_the_condition_of_its_query_(self) -> bool:
+        """
+        :return: True if this is the only condition of a (possibly nested) query, the conditions root is the one of
+         the outermost query only.
+        """
+        parent = self._parent_
+        return isinstance(parent, QueryObjectDescriptor) and parent._child_ is self
 
     @abstractmethod
     def _apply_mapping_(self, value: HashedValue) -> Iterable[HashedValue]:
